@@ -10,19 +10,6 @@ it holds whatever the network did.
 namespace Aiortc.Sctp
 open Aiortc.Gen
 
-theorem consolidate_mem : ∀ (S : List Int) (a : Int), consolidate a S = a ∨ consolidate a S ∈ S := by
-  intro S
-  induction S with
-  | nil => intro a; left; rfl
-  | cons u us ih =>
-    intro a
-    unfold consolidate
-    split
-    · rcases ih u with h | h
-      · right; rw [h]; simp
-      · right; simp [h]
-    · left; rfl
-
 /-- where the consolidation loop stops, the next TSN is not in the (sorted) list -/
 theorem consolidate_stop (b : Int) (_hb : R32 b) : ∀ (S : List Int) (a : Int), R32 a → KeySorted b S →
     (∀ x ∈ S, R32 x ∧ serialKey b a < serialKey b x) → tsn_plus_one (consolidate a S) ∉ S := by
